@@ -388,8 +388,8 @@ class WFSA:
         )
 
     def accessible(self):
-        stack = list(self.start)
-        visited = set(self.start)
+        stack = [q for q, _ in self.I]
+        visited = set(stack)
         while stack:
             P = stack.pop()
             for _, Q, _ in self.arcs(P):
